@@ -892,8 +892,8 @@ def o7_slotrange(prog, rep):
                               "events_network_cancel refuses a descriptor as unknown only when its number is not below the table's size", e.where,
                               "on this edge the descriptor may still be below the size: a registration that exists is reported as absent and stays in place",
                               function=name, construct="cancel-range")
-    if n < 8:
-        rep.defer_broken("O7: fewer than 8 table accesses found in events_network.c")
+    if n < 4:
+        rep.defer_broken("O7: fewer than 4 table accesses found in events_network.c")
 
 
 def run(tier):
